@@ -131,7 +131,8 @@ def bad (msg : String) : J := .obj [("bad_request", .str msg)]
 def handle (j : J) : J :=
   match j.getStr? "op" with
   | some "cfg" => .obj [("cfg", cfgToJ cfgNow), ("proposeCounterAtomic", .bool proposeCounterAtomicNow),
-                        ("studyLockNestingOk", .bool studyLockNestingOkNow)]
+                        ("studyLockNestingOk", .bool studyLockNestingOkNow),
+                        ("bestGuardOk", .bool bestGuardOkNow)]
   | some "run" =>
     match j.getNat? "n", (j.getArr? "groups").bind (·.mapM J.asNat?), (j.getArr? "acts") with
     | some n, some groups, some acts =>
